@@ -273,6 +273,19 @@ def unhx(h):
     return bytes.fromhex(h)
 
 
+def refcov(workdir, tag):
+    """what the model driver wrote beside its shard outputs: calls the reference filesystem covered, all calls, disagreements"""
+    import glob
+    c = t = b = 0
+    for fn in glob.glob(os.path.join(workdir, "%s.*.out.refcov" % tag)):
+        try:
+            x = open(fn).read().split()
+            c, t, b = c + int(x[0]), t + int(x[1]), b + int(x[2])
+        except Exception:
+            pass
+    return c, t, b
+
+
 def run_sharded(binary, script_lines, workdir, tag, nshards=NCPU, timeout=1500, env=None, extra_args=(), hang_is_outcome=False):
     """Run `binary <shard> <out>` over shards of the script in parallel; returns list of output lines."""
     os.makedirs(workdir, exist_ok=True)
@@ -293,6 +306,8 @@ def run_sharded(binary, script_lines, workdir, tag, nshards=NCPU, timeout=1500, 
                     e.pop(k, None)
                 else:
                     e[k] = v
+        if os.path.exists(outp + ".refcov"):
+            os.remove(outp + ".refcov")
         p = subprocess.Popen([binary, inp, outp] + list(extra_args), stdout=subprocess.DEVNULL, stderr=subprocess.PIPE, env=e)
         procs.append((p, outp, len(part), inp))
     # wait for the shards; a shard of the implementation that is still running long after all the others have finished is a hang of the code
